@@ -3,6 +3,7 @@ package main
 import (
 	"fmt"
 	"sort"
+	"strings"
 	"time"
 
 	"golang.org/x/crypto/ssh"
@@ -218,4 +219,78 @@ func matrix(r *ev.Run) {
 			}
 		}
 	}
+}
+
+// lapseWhileLocked: a certificate held by the underlying agent lapses while the shim is locked, and the underlying
+// agent refuses removals. The right passphrase still unlocks: afterwards the shim answers as an unlocked shim
+// (its listing may fail because of the refused purge, but it is not "locked"), and a second unlock finds nothing to unlock.
+func lapseWhileLocked(r *ev.Run) {
+	c := r.Case("lapse-while-locked", 0)
+	if c == nil {
+		return
+	}
+	r.Eval(1)
+	r.Guard(c, "lapse while locked", nil, func() {
+		ag := wire.New()
+		defer ag.Close()
+		sock, err := ag.Listen()
+		if err != nil {
+			r.Inconclusive(err.Error())
+			return
+		}
+		pool := gen.Pool()
+		k1, k2 := pool[0], pool[9]
+		start := time.Now()
+		lapse := start.Add(3 * time.Second)
+		short := gen.MakeCert(gen.CertSpec{Key: k2, KeyID: "short-lived@example", ValidAfter: uint64(start.Unix()) - 3600, ValidBefore: uint64(lapse.Unix()), Principals: []string{"u"}})
+		ag.Keyring.Add(agent.AddedKey{PrivateKey: k1.Priv, Comment: "k1"})
+		ag.Keyring.Add(agent.AddedKey{PrivateKey: k2.Priv, Certificate: short, Comment: "short-lived"})
+		inner, err := shimagent.New(shimagent.Option{Address: sock})
+		if err != nil {
+			r.Violation(c, "shim-construction-fails-without-fault", err.Error(), nil)
+			return
+		}
+		hung := false
+		s := &sh.Guarded{Inner: inner, OnHang: func(op string) { hung = true; ag.Close() }}
+		defer func() {
+			if !hung {
+				s.Close()
+			}
+		}()
+		pass := []byte("right passphrase")
+		if err := s.Lock(pass); err != nil {
+			r.Violation(c, "lock-fails-without-fault", err.Error(), nil)
+			return
+		}
+		ag.SetPlan(func(_ int, req []byte) wire.Action {
+			if len(req) > 0 && req[0] == 18 {
+				return wire.Action{Kind: wire.Failure}
+			}
+			return wire.Action{Kind: wire.Honest}
+		})
+		if d := time.Until(lapse.Add(1500 * time.Millisecond)); d > 0 {
+			time.Sleep(d)
+		}
+		uerr := s.Unlock(pass)
+		// whatever Unlock reported, the underlying agent took the passphrase: the shim must not be locked any more
+		l, lerr := s.List()
+		lockedStill := lerr == nil && len(l) == 0
+		if err2 := s.Lock([]byte("again")); err2 == nil {
+			// a shim that can be locked again was unlocked: fine
+			s.Unlock([]byte("again"))
+			lockedStill = false
+		} else if uerr != nil && strings.Contains(err2.Error(), "locked") {
+			lockedStill = true
+		}
+		if hung {
+			r.Violation(c, "operation-does-not-return:lapse-while-locked", "", nil)
+			return
+		}
+		if lockedStill {
+			r.Violation(c, "unlock-with-right-passphrase-fails", fmt.Sprintf("a certificate lapsed while the shim was locked and the underlying agent refuses removals: Unlock(right passphrase) returned %v, the underlying agent is unlocked, the shim still answers as locked (List: %d identities, err=%v)", uerr, len(l), lerr), nil)
+			return
+		}
+		r.Count("unlock with the right passphrase after a certificate lapsed under the lock (removals refused)", 1)
+		r.Nontrivial("lapse-while-locked")
+	})
 }
